@@ -70,6 +70,9 @@ func (bf *Bitfield) Add(id hotstuff.ID) {
 
 // Contains returns true if the set contains the ID.
 func (bf Bitfield) Contains(id hotstuff.ID) bool {
+	if id == 0 {
+		return false // IDs start at 1; index(0) would be a negative bit position
+	}
 	byteIdx, bitIdx := index(id)
 	if len(bf.data) <= byteIdx {
 		return false
